@@ -68,6 +68,27 @@ def close(a, b, atol, rtol):
     return abs(a - b) <= atol + rtol * max(abs(a), abs(b))
 
 
+def _backward(j):
+    """An inverse whose answer differs from the model's by more than the forward-error tolerance (an ill-conditioned point: a
+    nearly flat bin makes x and, through f''/f', the log-det, arbitrarily sensitive to the last ulp of y and of the parameters)
+    is still right when it is a preimage in the BACKWARD-error sense: the MODEL's forward map, fed the implementation's answer
+    and the parameters the implementation's conditioner produces there, returns the original input and the negated log-det.
+    -> (model forward outputs at the implementation's answer, model forward log-dets there) or None"""
+    try:
+        if not torch.isfinite(j.y).all() or not torch.isfinite(j.ld).all():
+            return None
+        j2 = make_job(j.e, j.t, j.y.detach().clone(), j.ctx, False, j.regime, tag='backward')
+        if j2.kind != 'ok' or not j2.reqs:
+            return None
+        run_jobs([j2])
+        out, ld, cond, alts, err = R.decode(j2.resp[-1], j2.prec)
+        if err or len(out) != j.x.numel() or len(ld) != j.ld.numel():
+            return None
+        return out, ld
+    except Exception:
+        return None
+
+
 def compare(ctx, j, prop, observables=('out', 'ld'), atol=1e-9, rtol=1e-9, check_cond=True, branch_extra=''):
     """-> True if the job agrees.  Records cases/disagreements in ctx."""
     e = j.e
@@ -139,6 +160,25 @@ def compare(ctx, j, prop, observables=('out', 'ld'), atol=1e-9, rtol=1e-9, check
             gv = got.tolist()
             if not (e.extra.get('uncond') and len(mv) == len(gv) and all(close(a, b, atol, rtol) for a, b in zip(gv, mv))):
                 ok = False; why = 'conditioner input differs from the identity split the model predicts'
+    if not ok and j.inverse and why.startswith(('outputs[', 'logabsdet[')):
+        bw = _backward(j)
+        if bw is not None:
+            # element-wise: forward-error agreement with the model's inverse OR backward-error agreement through the model's forward
+            fo, fl = bw
+            xin = j.x.reshape(-1).tolist()
+            ok2 = True
+            if 'out' in observables:
+                for i, (a, b) in enumerate(zip(yl, out)):
+                    ka = kap[i // per_row] if i // per_row < len(kap) else 0.0
+                    fwd_err = any(close(a, c, atol + ka, rtol) for c in [b] + alts.get(i, []))
+                    if not (fwd_err or close(xin[i], fo[i], atol, rtol)):
+                        ok2 = False; break
+            if ok2 and 'ld' in observables:
+                for i, (a, b) in enumerate(zip(ldl, ld)):
+                    if not (close(a, b, atol * 10 + (kap[i] if math.isfinite(kap[i]) else 0.0), rtol * 10) or close(a, -fl[i], atol * 10, rtol * 10)):
+                        ok2 = False; break
+            if ok2:
+                ok = True; why = ''; br += '/backward-error'
     nontriv = any(abs(a - b) > 1e-12 for a, b in zip(yl, j.x.reshape(-1).tolist())) or any(abs(v) > 1e-12 for v in ldl)
     ctx.case(key=(e.name, j.regime, j.inverse, j.prec, j.tag), branch=br, nontrivial=nontriv, n=n,
              sample={'entry': e.name, 'regime': j.regime, 'inverse': j.inverse, 'x': j.x.reshape(-1).tolist()[:4],
